@@ -26,7 +26,9 @@
      membership-change entry above applied is at or below pending_conf_index.
    * hup_spec / hup_guard / hup_blocked, has_unapplied_spec, scan_conf_false / _true,
      has_unapplied_true_witness: hup campaigns only after has_unapplied_conf_changes
-     answered false on (applied or pending snapshot, committed]; what the answer means in
+     answered false on [low, committed] with low = pending snapshot index + 1, else
+     max(applied + 1, first_index) (hup_window_not_compacted: never below the first index,
+     regression guard for /repo a8252b4); what the answer means in
      terms of the pages slice returned; a positive answer exhibits a real log entry.
      step_campaign_guard: through Raft::step a node ends up (pre-)candidate only if nothing
      started, or a pre-candidate won its pre-vote, or hup ran after a negative scan.
@@ -467,13 +469,17 @@ Theorem C09_hup_spec :
   hup r tl = Ok r' ->
   (is_leader r = true /\ r' = r) \/
   (is_leader r = false /\
-   has_unapplied_conf_changes r
-     (match u_maybe_first_index (unst (r_log r)) with Some i => i | None => applied (r_log r) + 1 end)
-     (committed (r_log r) + 1) = Ok true /\ r' = r) \/
+   (exists low, (match u_maybe_first_index (unst (r_log r)) with
+                    | Some i => Ok i
+                    | None => fi <- first_index (r_log r) ;; Ok (N.max (applied (r_log r) + 1) fi)
+                    end) = Ok low /\
+      has_unapplied_conf_changes r low (committed (r_log r) + 1) = Ok true) /\ r' = r) \/
   (is_leader r = false /\
-   has_unapplied_conf_changes r
-     (match u_maybe_first_index (unst (r_log r)) with Some i => i | None => applied (r_log r) + 1 end)
-     (committed (r_log r) + 1) = Ok false /\
+   (exists low, (match u_maybe_first_index (unst (r_log r)) with
+                    | Some i => Ok i
+                    | None => fi <- first_index (r_log r) ;; Ok (N.max (applied (r_log r) + 1) fi)
+                    end) = Ok low /\
+      has_unapplied_conf_changes r low (committed (r_log r) + 1) = Ok false) /\
    (if tl then campaign_real true r
     else if r_pre_vote r then campaign_pre r else campaign_real false r) = Ok r').
 Proof. exact hup_spec. Qed.
@@ -485,20 +491,56 @@ Theorem C09_hup_guard :
   forall r tl r',
   hup r tl = Ok r' -> r' <> r ->
   is_leader r = false /\
-  has_unapplied_conf_changes r
-    (match u_maybe_first_index (unst (r_log r)) with Some i => i | None => applied (r_log r) + 1 end)
-    (committed (r_log r) + 1) = Ok false.
+  (exists low, (match u_maybe_first_index (unst (r_log r)) with
+                    | Some i => Ok i
+                    | None => fi <- first_index (r_log r) ;; Ok (N.max (applied (r_log r) + 1) fi)
+                    end) = Ok low /\
+     has_unapplied_conf_changes r low (committed (r_log r) + 1) = Ok false).
 Proof. exact C09_hup_guard_pin. Qed.
 Print Assumptions C09_hup_guard.
 
 Theorem C09_hup_blocked :
   forall r tl,
-  has_unapplied_conf_changes r
-    (match u_maybe_first_index (unst (r_log r)) with Some i => i | None => applied (r_log r) + 1 end)
-    (committed (r_log r) + 1) = Ok true ->
+  (exists low, (match u_maybe_first_index (unst (r_log r)) with
+                    | Some i => Ok i
+                    | None => fi <- first_index (r_log r) ;; Ok (N.max (applied (r_log r) + 1) fi)
+                    end) = Ok low /\
+     has_unapplied_conf_changes r low (committed (r_log r) + 1) = Ok true) ->
   hup r tl = Ok r.
 Proof. exact hup_blocked. Qed.
 Print Assumptions C09_hup_blocked.
+
+(* regression guard (defect fixed in /repo a8252b4): without a pending unstable snapshot the
+   window hup scans starts at or above the log's first index - it never reads compacted
+   entries - and at or above applied + 1 *)
+Theorem C09_hup_window_not_compacted :
+  forall r tl r',
+  hup r tl = Ok r' -> is_leader r = false ->
+  u_maybe_first_index (unst (r_log r)) = None ->
+  exists low fi b,
+    (match u_maybe_first_index (unst (r_log r)) with
+                    | Some i => Ok i
+                    | None => fi <- first_index (r_log r) ;; Ok (N.max (applied (r_log r) + 1) fi)
+                    end) = Ok low /\
+    first_index (r_log r) = Ok fi /\ fi <= low /\ applied (r_log r) + 1 <= low /\
+    has_unapplied_conf_changes r low (committed (r_log r) + 1) = Ok b.
+Proof. exact hup_window_not_compacted. Qed.
+Print Assumptions C09_hup_window_not_compacted.
+
+(* a follower whose storage was compacted to index 5 by a stabilized snapshot while applied
+   is still 2: applied + 1 = 3 < first_index = 6.  Scanning from applied + 1 (the old window)
+   panics on the compacted range; hup scans [6, 7) and campaigns *)
+Example C09_hup_after_compaction_example :
+  applied (r_log C09Samples.s_compacted) + 1 = 3 /\
+  first_index (r_log C09Samples.s_compacted) = Ok 6 /\
+  u_maybe_first_index (unst (r_log C09Samples.s_compacted)) = None /\
+  is_ok (has_unapplied_conf_changes C09Samples.s_compacted 3 7) = false /\
+  has_unapplied_conf_changes C09Samples.s_compacted 6 7 = Ok false /\
+  (exists r', hup C09Samples.s_compacted false = Ok r' /\ r_state r' = Candidate /\ r_term r' = 3).
+Proof.
+  repeat (split; [vm_compute; reflexivity|]).
+  eexists. split; [vm_compute; reflexivity|]. vm_compute. split; reflexivity.
+Qed.
 
 Theorem C09_has_unapplied_spec :
   forall r lo hi b,
@@ -557,9 +599,11 @@ Theorem C09_step_campaign_guard :
   (exists r1 tl,
      (r1 = r \/ exists l, r_term r < m_term m /\ become_follower r (m_term m) l = Ok r1) /\
      is_leader r1 = false /\
-     has_unapplied_conf_changes r1
-       (match u_maybe_first_index (unst (r_log r1)) with Some i => i | None => applied (r_log r1) + 1 end)
-       (committed (r_log r1) + 1) = Ok false /\
+     (exists low, (match u_maybe_first_index (unst (r_log r1)) with
+                    | Some i => Ok i
+                    | None => fi <- first_index (r_log r1) ;; Ok (N.max (applied (r_log r1) + 1) fi)
+                    end) = Ok low /\
+        has_unapplied_conf_changes r1 low (committed (r_log r1) + 1) = Ok false) /\
      hup r1 tl = Ok r' /\ (m_type m = MsgHup \/ m_type m = MsgTimeoutNow)).
 Proof. exact step_campaign_guard. Qed.
 Print Assumptions C09_step_campaign_guard.
